@@ -4,6 +4,7 @@ import (
 	"crypto/md5"
 	"encoding/hex"
 	"image/color"
+	"reflect"
 	"strings"
 	"sync"
 
@@ -21,8 +22,10 @@ import (
 )
 
 // encodeAny runs any public encoder entry point:
-//   ean <hex> | codabar <hex> | c128 <hex> | c128n <hex> | c39 <cs> <full> <hex> | c93 <cs> <full> <hex>
-//   tof <interleaved> <hex> | qr <level 0-3> <mode 0-3> <hex> | dm <hex> | az <pct> <layers> <hex> | pdf <level> <hex>
+//
+//	ean <hex> | codabar <hex> | c128 <hex> | c128n <hex> | c39 <cs> <full> <hex> | c93 <cs> <full> <hex>
+//	tof <interleaved> <hex> | qr <level 0-3> <mode 0-3> <hex> | dm <hex> | az <pct> <layers> <hex> | pdf <level> <hex>
+//
 // scheme: nil = plain Encode, else the WithColor variant.
 func encodeAny(a []string, scheme *barcode.ColorScheme) (barcode.Barcode, error) {
 	b := func(s string) bool { return s == "1" }
@@ -102,20 +105,23 @@ func shortDesc(d string) string {
 }
 
 var testSchemes = map[string]barcode.ColorScheme{
-	"8":    barcode.ColorScheme8,
-	"16":   barcode.ColorScheme16,
-	"24":   barcode.ColorScheme24,
-	"32":   barcode.ColorScheme32,
-	"rgba": {Model: color.RGBAModel, Background: color.RGBA{10, 200, 30, 255}, Foreground: color.RGBA{250, 0, 90, 128}},
+	"8":     barcode.ColorScheme8,
+	"16":    barcode.ColorScheme16,
+	"24":    barcode.ColorScheme24,
+	"32":    barcode.ColorScheme32,
+	"rgba":  {Model: color.RGBAModel, Background: color.RGBA{10, 200, 30, 255}, Foreground: color.RGBA{250, 0, 90, 128}},
 	"nrgba": {Model: color.NRGBAModel, Background: color.NRGBA{1, 2, 3, 4}, Foreground: color.NRGBA{200, 100, 50, 255}},
-	"cmyk": {Model: color.CMYKModel, Background: color.CMYK{0, 10, 20, 30}, Foreground: color.CMYK{255, 0, 0, 0}},
-	"gray": {Model: color.GrayModel, Background: color.Gray{40}, Foreground: color.Gray{200}},
-	"inv":  {Model: color.Gray16Model, Background: color.Black, Foreground: color.White},
+	"cmyk":  {Model: color.CMYKModel, Background: color.CMYK{0, 10, 20, 30}, Foreground: color.CMYK{255, 0, 0, 0}},
+	"gray":  {Model: color.GrayModel, Background: color.Gray{40}, Foreground: color.Gray{200}},
+	"inv":   {Model: color.Gray16Model, Background: color.Black, Foreground: color.White},
 	// schemes whose colours are NOT values of their model (the contract says: pixels are exactly the scheme's colours)
 	"mix1": {Model: color.RGBAModel, Background: color.White, Foreground: color.Black},
 	"mix2": {Model: color.GrayModel, Background: color.RGBA{250, 240, 230, 255}, Foreground: color.RGBA{200, 0, 0, 255}},
 	"mix3": {Model: color.CMYKModel, Background: color.RGBA{255, 255, 255, 255}, Foreground: color.NRGBA{0, 0, 255, 128}},
 	"mix4": {Model: color.NRGBAModel, Background: color.Gray16{0xffff}, Foreground: color.RGBA{10, 20, 30, 40}},
+	// a model that is not comparable / hashable (color.Palette is a slice): the usual choice for paletted (GIF) output
+	"pal": {Model: color.Palette{color.RGBA{255, 255, 255, 255}, color.RGBA{200, 0, 0, 255}, color.RGBA{0, 0, 0, 255}},
+		Background: color.RGBA{255, 255, 255, 255}, Foreground: color.RGBA{200, 0, 0, 255}},
 }
 
 // barcodes kept alive across case lines (hold / recheck): a returned barcode must be a snapshot,
@@ -198,8 +204,8 @@ func init() {
 		cc, okc := cbc.(barcode.BarcodeColor)
 		pc, okp := pbc.(barcode.BarcodeColor)
 		return "OK px=" + b2(!strings.Contains(cd[ci:], "?") && !strings.Contains(pd[pi:], "?")) +
-			" model=" + b2(cbc.ColorModel() == sch.Model) +
-			" scheme=" + b2(okc && cc.ColorScheme() == sch) +
+			" model=" + b2(reflect.DeepEqual(cbc.ColorModel(), sch.Model)) +
+			" scheme=" + b2(okc && reflect.DeepEqual(cc.ColorScheme(), sch)) +
 			" same=" + b2(pd[pi:] == cd[ci:]) +
 			" plain16=" + b2(okp && pc.ColorScheme() == barcode.ColorScheme16 && pbc.ColorModel() == barcode.ColorScheme16.Model) +
 			" acc=" + b2(pd[:pi] == cd[:ci]) +
